@@ -194,6 +194,9 @@ class FileUnicodeMap(UnicodeMap):
             # Interpret as UTF-16BE.
             unichr = code.decode("UTF-16BE", "ignore")
         elif isinstance(code, int):
+            if not 0 <= code <= 0x10FFFF:
+                # not a Unicode code point
+                return
             unichr = chr(code)
         else:
             raise PDFTypeError(code)
